@@ -475,6 +475,8 @@ class Emitter:
             if st.get("kind") == "DeclStmt":
                 for v in st.get("inner", []):
                     if v.get("kind") == "VarDecl":
+                        if "(lambda at " in (v.get("type", {}).get("qualType", "")):
+                            continue      # a lambda object: it becomes a C function, there is no value to export
                         declared[v["id"]] = v
         inner_ids = set()
         free = collections.OrderedDict()
@@ -503,7 +505,10 @@ class Emitter:
         self.cur = ctx
         try:
             params = ["%s *self" % self.need_struct(rec)] if rec is not None else []
-            for vid, v in free.items():
+            for vid, v in list(free.items()):
+                if "(lambda at " in (v.get("type", {}).get("qualType", "")):
+                    del free[vid]         # a closure object (or a library parameter bound to one): not a value of the slice
+                    continue
                 vt = self.ctype(v["type"])
                 if vt.is_ref:
                     vt = vt.pointee()
